@@ -165,7 +165,7 @@ def extraction_cases(rng, n):
                 form = '{%s}'       # no listed macro declares an option
             call = mac + form % w
             ctx = rng.choice(['text', 'brace', 'unknown', 'comment', 'verb',
-                              'skip', 'verbatim', 'par', 'known'])
+                              'skip', 'verbatim', 'par', 'known', 'other'])
             if ctx == 'text':
                 parts.append('word ' + call + ' word\n')
                 items.append(w)
@@ -186,6 +186,16 @@ def extraction_cases(rng, n):
                 parts.append('%%% LT-SKIP-BEGIN\n' + call + '\n%%% LT-SKIP-END\n')
             elif ctx == 'verbatim':
                 parts.append('\\begin{verbatim}\n' + call + '\n\\end{verbatim}\n')
+            elif ctx == 'other':
+                # macros that are not listed: their text is "nothing else",
+                # also where the filter normally detaches it (footnote, caption)
+                parts.append(rng.choice([
+                    'See\\footnote{Note appendix} there\n',
+                    '\\begin{figure}\\caption{A nice picture}\\end{figure}\n',
+                    '\\footnotetext{more text}\n', '\\section{Heading words}\n',
+                    '\\textbf{bold words} \\cite{key}\n',
+                    '\\newcommand{\\nn}[1]{#1 x}\\nn{argument}\n',
+                    '\\item[label] body\n', '$a = b$ and \\[ c = d. \\]\n']))
             elif ctx == 'known':
                 # K4: inside the argument of a declared macro
                 parts.append('\\section{' + call + '}\n')
